@@ -888,6 +888,8 @@ def mon_c04(w, F, vd):
                 f = r.fires[0]
                 st_after = F.step_end[first_connack.step].d["states"]
                 st = dict(st_after).get(conn.idx)
+                if any(x.k == "api" and x.d["op"] in ("connect", "disconnect") for x in _ctx_events(w, first_connack)):
+                    st = None       # the application called connect()/disconnect() from inside the callbacks: the state moved on
                 if code == 0:
                     if f[3] != "ok" or f[4] != bool(sp) or f[4] is None:
                         vd.bad("C04.accept_outcome", "CONNACK 0 sp=%d gave %s %r" % (sp, f[3], f[4]))
@@ -1549,7 +1551,7 @@ def mon_c12(w, F, vd):
                     vd.bad("C12.publish_resume", "at CONNACK publishes %s were re-sent, unacknowledged in original order are %s" % (
                         [ri.rid for ri in got_pub], [ri.rid for ri in exp_pub]))
                 for x in evs:
-                    if x.k == "fire" and x.d["kind"] == "publish":
+                    if x.k == "fire" and x.d["kind"] == "publish" and api_i.get(x.d["rid"], e.i + 1) < e.i:
                         vd.bad("C12.fired_at_resume", "publish #%d fired %s(%s) inside the persistent CONNACK" % (
                             x.d["rid"], x.d["out"], x.d["val"]))
             elif conn.clean is True:
